@@ -59,7 +59,13 @@ impl Sess {
             docs.push((format!("file://{}", p.to_string_lossy()), p));
         }
         let plen = docs[0].1.to_string_lossy().len();
-        let mut s = Self { ls: Ls::new(&dir), dir, docs, evs: vec![json!({"ev": "Reset"}), json!({"ev": "Deep", "path_bytes": plen})] };
+        // the real naming function on both documents: each name must fit a file name, and they must differ
+        let names: Vec<String> = docs.iter().map(|(u, _)| {
+            let url = tower_lsp::lsp_types::Url::parse(u).unwrap();
+            crate::dictionary_io::file_dict_name(&url).map(|p| p.to_string_lossy().to_string()).unwrap_or_default()
+        }).collect();
+        let mut s = Self { ls: Ls::new(&dir), dir, docs, evs: vec![json!({"ev": "Reset"}),
+            json!({"ev": "Deep", "path_bytes": plen, "name_bytes": names.iter().map(|n| n.len()).max().unwrap_or(0), "same_name": names[0] == names[1]})] };
         s.boot();
         s
     }
